@@ -736,6 +736,7 @@ func (e *Engine) opSet(c *cursor) *Violation {
 		vk = 1 // World.Set is documented as refusing a locked world; pointer writes are the legal path there
 	}
 	op.Variant = []string{"Set", "GetWrite", "GetUncheckedWrite"}[vk]
+	shape := c.n(100)
 	ill := e.illegalIntent(c)
 	if len(present) == 0 || (ill && c.n(2) == 0) {
 		// component the entity does not have
@@ -763,6 +764,14 @@ func (e *Engine) opSet(c *cursor) *Violation {
 	}
 	op.Illegal = why
 	op.Val = e.genVal(op.Type)
+	if op.Variant == "Set" && e.P.Types[op.Type].IsPtr() && shape < 60 {
+		// the value is a composite literal at the call site (may legally stay on the caller's stack)
+		op.Variant = "SetLiteral"
+		if shape < 20 {
+			op.Variant = "MapSetLiteral"
+		}
+		e.St.Probes["literal-call-site"]++
+	}
 	res, ok, v := e.issue(op, why)
 	if v != nil || !ok {
 		return v
